@@ -99,22 +99,48 @@ type c13Case struct {
 	After int    `json:"after,omitempty"`
 	Pos   int    `json:"pos,omitempty"` // replay: single position / off length
 	K     int    `json:"k,omitempty"`
+	OAM   int    `json:"oam,omitempty"` // object configuration (see c13Fresh)
 }
 
 // register writes that must leave the line/mode schedule alone (LCDC values get bit 7 forced on)
 var c13Writes = [][2]uint16{{0xff44, 0x00}, {0xff44, 0x5a}, {0xff44, 0x90}, {0xff41, 0x00}, {0xff41, 0x78}, {0xff41, 0xff}, {0xff45, 0x00}, {0xff45, 0x05},
 	{0xff40, 0x00}, {0xff40, 0x7f}, {0xff40, 0x11}, {0xff42, 0xff}, {0xff43, 0xff}, {0xff4a, 0x00}, {0xff4b, 0x07}, {0xff47, 0x00}, {0xff48, 0x00}, {0xff0f, 0x00}, {0xff46, 0xc0}}
 
-func c13Fresh() (*machine.M, *lineMon) {
+// c13Fresh returns a machine whose LCD has just been switched on. oam = 0: the power-on state itself (empty OAM);
+// 1: ten objects on lines 50-57 and objects enabled; 2: all forty objects on lines 50-57 (more than the hardware
+// can show; the line/mode schedule and the requests must not care); 3: forty objects on lines 0-7 (the first line
+// after switching on included).
+func c13Fresh(oam ...int) (*machine.M, *lineMon) {
 	m := machine.New(machine.ROMOnly(), machine.Opts{})
 	// power-on state: LCD already on at position 0 of its first frame
 	lm := &lineMon{}
 	lm.switchOn()
+	if len(oam) > 0 && oam[0] > 0 {
+		for m.Map.Read(0xff41)&3 == 2 {
+			m.P.EndMachineCycle()
+		}
+		m.Map.Write(0xff40, 0x11)
+		n, y := 10, uint8(66)
+		if oam[0] >= 2 {
+			n = 40
+		}
+		if oam[0] == 3 {
+			y = 16
+		}
+		for i := 0; i < n; i++ {
+			for k, v := range [4]uint8{y, uint8(8 + 4*i), uint8(i), 0} {
+				m.Map.Write(0xfe00+uint16(4*i+k), v)
+			}
+		}
+		m.Map.Write(0xff0f, 0)
+		m.Map.Write(0xff40, 0x93)
+		lm.switchOn()
+	}
 	return m, lm
 }
 
 func c13Check(l *explore.Local, _ struct{}, c c13Case) *explore.Fail {
-	m, lm := c13Fresh()
+	m, lm := c13Fresh(c.OAM)
 	if ly, mode := obs(m); ly != 0 || mode != 2 {
 		return explore.Failf("after switching on the sequence does not restart at line 0 in mode 2", "power-on: LY=%d mode=%d", ly, mode)
 	}
@@ -137,7 +163,7 @@ func c13Check(l *explore.Local, _ struct{}, c c13Case) *explore.Fail {
 				sp, so, si, st := *m.P, *m.OAM, *m.I, *m.T
 				slm := *lm
 				fail := func(f *explore.Fail) *explore.Fail {
-					f.Case = c13Case{Kind: "write", From: p, To: p + 1, Pos: p, K: wi, After: c.After}
+					f.Case = c13Case{Kind: "write", From: p, To: p + 1, Pos: p, K: wi, After: c.After, OAM: c.OAM}
 					f.Msg += fmt.Sprintf(" [%04x<-%02x written %d cycles after power-on]", w[0], w[1], p)
 					return f
 				}
@@ -171,7 +197,7 @@ func c13Check(l *explore.Local, _ struct{}, c c13Case) *explore.Fail {
 				sp, so, si, st := *m.P, *m.OAM, *m.I, *m.T
 				slm := *lm
 				fail := func(f *explore.Fail) *explore.Fail {
-					f.Case = c13Case{Kind: "offon", From: p, To: p + 1, Pos: p, K: k, After: c.After}
+					f.Case = c13Case{Kind: "offon", From: p, To: p + 1, Pos: p, K: k, After: c.After, OAM: c.OAM}
 					f.Msg += fmt.Sprintf(" [LCD switched off %d cycles after power-on for %d cycles]", p, k)
 					return f
 				}
@@ -224,14 +250,22 @@ type c14Case struct {
 	OffFrom int `json:"off_from,omitempty"`
 	OffTo   int `json:"off_to,omitempty"`
 	OffStep int `json:"off_step,omitempty"`
+	// Write > 0: instead of switching the LCD off, register write number Write-1 of c14Writes is made at OffAt
+	// (enumeration form: every write at every position); requests must stay exactly where they belong
+	Write int `json:"write,omitempty"`
+	OAM   int `json:"oam,omitempty"` // object configuration (see c13Fresh)
 }
+
+// register writes that must not move, add or remove a VBlank/STAT request (LCDC values keep bit 7)
+var c14Writes = [][2]uint16{{0xff44, 0x00}, {0xff44, 0x90}, {0xff40, 0x80}, {0xff40, 0xff}, {0xff42, 0x55}, {0xff43, 0x55}, {0xff4a, 0x00}, {0xff4b, 0x07},
+	{0xff47, 0x1b}, {0xff48, 0x1b}, {0xff46, 0xc0}}
 
 var statBit = map[string]uint8{"none": 0, "hblank": 0x08, "vblank": 0x10, "oam": 0x20, "lyc": 0x40}
 
 func c14Check(l *explore.Local, _ struct{}, c c14Case) *explore.Fail {
 	if c.OffAt == -2 {
 		// run once to OffFrom, then try every position from a snapshot of (PPU, OAM, interrupts)
-		m, lm := c13Fresh()
+		m, lm := c13Fresh(c.OAM)
 		m.Map.Write(0xff45, uint8(c.LYC))
 		m.Map.Write(0xff41, statBit[c.Source])
 		m.Map.Write(0xff0f, 0)
@@ -243,7 +277,26 @@ func c14Check(l *explore.Local, _ struct{}, c c14Case) *explore.Fail {
 		}
 		m.Map.Write(0xff0f, 0)
 		for ; t < c.OffTo; t += c.OffStep {
+			if c.Write != 0 {
+				for wi := range c14Writes {
+					sp, so, si := *m.P, *m.OAM, *m.I
+					slm := *lm
+					one := c
+					one.OffAt, one.Write = t, wi+1
+					f := c14Run(l, m, lm, one, t)
+					*m.P, *m.OAM, *m.I = sp, so, si
+					*lm = slm
+					if f != nil {
+						one.OffFrom, one.OffTo, one.OffStep = 0, 0, 0
+						f.Case = one
+						return f
+					}
+				}
+			}
 			for _, ln := range []int{1, 300} {
+				if c.Write != 0 {
+					break
+				}
 				sp, so, si := *m.P, *m.OAM, *m.I
 				slm := *lm
 				one := c
@@ -266,7 +319,7 @@ func c14Check(l *explore.Local, _ struct{}, c c14Case) *explore.Fail {
 		}
 		return nil
 	}
-	m, lm := c13Fresh()
+	m, lm := c13Fresh(c.OAM)
 	m.Map.Write(0xff45, uint8(c.LYC))
 	m.Map.Write(0xff41, statBit[c.Source])
 	m.Map.Write(0xff0f, 0)
@@ -284,9 +337,22 @@ func c14Run(l *explore.Local, m *machine.M, lm *lineMon, c c14Case, t0 int) *exp
 			total = c.OffAt + c.OffLen + 400 // quick tier: the full frame after switching on is followed from every 8th position
 		}
 	}
+	if c.Write != 0 {
+		total = c.OffAt + 240 // the rest of the line and the next two line starts
+		if c.Frames >= 3 {
+			total = c.OffAt + 17556 + 300
+		}
+	}
 	vbl, st := 0, 0
+	broken := false
 	for t := t0; t < total; t++ {
-		if t == c.OffAt {
+		if t == c.OffAt && c.Write != 0 {
+			w := c14Writes[c.Write-1]
+			m.Map.Write(w[0], uint8(w[1]))
+			if f := m.Map.Read(0xff0f) & 3; f != 0 {
+				return explore.Failf("interrupt requested by an unrelated register write", "source %s LYC=%d: IF=%02x right after %04x<-%02x at cycle %d", c.Source, c.LYC, f, w[0], w[1], c.OffAt)
+			}
+		} else if t == c.OffAt {
 			lcdc := m.Map.Read(0xff40)
 			m.Map.Write(0xff0f, 0)
 			m.Map.Write(0xff40, lcdc&0x7f)
@@ -313,8 +379,13 @@ func c14Run(l *explore.Local, m *machine.M, lm *lineMon, c c14Case, t0 int) *exp
 		m.Map.Write(0xff0f, 0)
 		l.Trans(1)
 		newLine, msg := lm.step(ly, mode)
-		if msg != "" {
-			return nil // line timing itself is C13's business
+		if msg != "" || broken {
+			// the line/mode schedule itself is C13's business; without it only the count per frame can be judged
+			broken = true
+			if iff&1 != 0 {
+				vbl++
+			}
+			continue
 		}
 		wantV := newLine && ly == 144
 		wantS, dontCare := false, false
@@ -341,6 +412,9 @@ func c14Run(l *explore.Local, m *machine.M, lm *lineMon, c c14Case, t0 int) *exp
 			st++
 		}
 		ctx := fmt.Sprintf("source %s LYC=%d off_at=%d: cycle %d, LY=%d (%d cycles into the line), mode %d->%d", c.Source, c.LYC, c.OffAt, t, ly, lm.o, prevMode, mode)
+		if c.Write != 0 {
+			ctx = fmt.Sprintf("source %s LYC=%d, %04x<-%02x written at cycle %d: cycle %d, LY=%d (%d cycles into the line), mode %d->%d", c.Source, c.LYC, c14Writes[c.Write-1][0], c14Writes[c.Write-1][1], c.OffAt, t, ly, lm.o, prevMode, mode)
+		}
 		if gotV != wantV && !justOn {
 			if wantV {
 				return explore.Failf("VBlank not requested when line 144 begins", "%s", ctx)
@@ -367,6 +441,9 @@ func c14Run(l *explore.Local, m *machine.M, lm *lineMon, c c14Case, t0 int) *exp
 		prevMode = mode
 		justOn = false
 	}
+	if broken && c.OffAt < 0 && t0 == 0 && vbl != c.Frames {
+		return explore.Failf("VBlank is not requested exactly once per frame", "source %s LYC=%d objects=%d: %d VBlank requests in %d frames (%d machine cycles) with the LCD on throughout", c.Source, c.LYC, c.OAM, vbl, c.Frames, total)
+	}
 	l.Eval(1)
 	l.Outcome(uint64(vbl)<<32 | uint64(st)<<8 | uint64(statBit[c.Source]))
 	return nil
@@ -382,8 +459,14 @@ func init() {
 		if c.Thorough() {
 			after = 17556 + 300
 		}
-		explore.Product(c.R, "free-run", explore.PartOpt{Bound: "4 frames", Domain: "power-on"},
-			func(yield func(c13Case) bool) { yield(c13Case{Kind: "free", To: 4 * 17556}) }, func() struct{} { return struct{}{} }, c13Check)
+		explore.Product(c.R, "free-run", explore.PartOpt{Bound: "4 frames", Domain: "power-on (empty OAM); ten objects on a line; forty objects on a line; forty objects on lines 0-7"},
+			func(yield func(c13Case) bool) {
+				for oam := 0; oam <= 3; oam++ {
+					if !yield(c13Case{Kind: "free", To: 4 * 17556, OAM: oam}) {
+						return
+					}
+				}
+			}, func() struct{} { return struct{}{} }, c13Check)
 		explore.Product(c.R, "off-on-at-every-position", explore.PartOpt{Bound: fmt.Sprintf("off for {0,1,5,200} cycles, then on and %d monitored cycles", after), Domain: "every cycle position of the first frame and of the second (steady) frame"},
 			func(yield func(c13Case) bool) {
 				step := 114 * 2
@@ -397,6 +480,12 @@ func init() {
 					}
 					if !yield(c13Case{Kind: "offon", From: from, To: to, OffK: []int{0, 1, 5, 200}, After: after}) {
 						return
+					}
+					if from < 17556 && (c.Thorough() || from%(114*8) == 0) {
+						// the same with forty objects on lines 0-7: the first line after switching on again scans them
+						if !yield(c13Case{Kind: "offon", From: from, To: to, OffK: []int{1}, After: after, OAM: 3}) {
+							return
+						}
 					}
 				}
 			}, func() struct{} { return struct{}{} }, c13Check)
@@ -428,10 +517,10 @@ func init() {
 	})
 	register("C14", "model_checking", func(c *Ctx) {
 		if c.R != nil {
-			c.R.Rule = "IF is read and cleared through the Mapper after every machine cycle, so the exact cycle of every VBlank/STAT request of the real PPU is observed and compared with the reference: VBlank exactly in the cycle LY becomes 144; STAT exactly at the rising edge of the single enabled source (mode 0 entry / LY becomes 144 / LY becomes n for n in 0..143 / LY becomes LYC); nothing while the LCD is off; each STAT source x LYC values x 3 frames, plus LCD off (1 and 300 cycles) and on again at every cycle of lines 0, 1, 143, 144, 153 (thorough: every cycle of a frame), each tried from a snapshot"
+			c.R.Rule = "IF is read and cleared through the Mapper after every machine cycle, so the exact cycle of every VBlank/STAT request of the real PPU is observed and compared with the reference: VBlank exactly in the cycle LY becomes 144; STAT exactly at the rising edge of the single enabled source (mode 0 entry / LY becomes 144 / LY becomes n for n in 0..143 / LY becomes LYC); nothing while the LCD is off; each STAT source x LYC values x 3 frames, plus LCD off (1 and 300 cycles) and on again at every cycle of lines 0, 1, 143, 144, 153 (thorough: every cycle of a frame), each tried from a snapshot; and at every such cycle one write to each of 11 registers that have nothing to do with the requests (LY, LCDC keeping bit 7, scroll, window, palettes, DMA): nothing may be requested by the write and every following request must stay in place"
 			c.R.Assumptions = []string{"OAM source at line 144, and whatever is requested in the cycle the LCD is switched on, are not judged", "several STAT sources at once (STAT blocking) are outside the statement"}
 		}
-		explore.Product(c.R, "requests", explore.PartOpt{Bound: "3 frames per configuration", Domain: "sources {none,hblank,vblank,oam,lyc} x LYC 0-153, 154, 200, 255 (lyc) / {0,144} (others); off/on schedules"},
+		explore.Product(c.R, "requests", explore.PartOpt{Bound: "3 frames per configuration", Domain: "sources {none,hblank,vblank,oam,lyc} x LYC 0-153, 154, 200, 255 (lyc) / {0,144} (others), with empty OAM and with 10 / 40 objects on one line; off/on schedules; unrelated register writes"},
 			func(yield func(c14Case) bool) {
 				for _, src := range []string{"none", "hblank", "vblank", "oam", "lyc"} {
 					lycs := []int{0, 144}
@@ -445,6 +534,13 @@ func init() {
 					for _, y := range lycs {
 						if !yield(c14Case{Source: src, LYC: y, Frames: 3, OffAt: -1}) {
 							return
+						}
+						if y == 0 || y == 51 || y == 144 {
+							for oam := 1; oam <= 3; oam++ {
+								if !yield(c14Case{Source: src, LYC: y, Frames: 3, OffAt: -1, OAM: oam}) {
+									return
+								}
+							}
 						}
 					}
 					// off/on schedules
@@ -470,12 +566,19 @@ func init() {
 								if !yield(c14Case{Source: src, LYC: y, Frames: 3, OffAt: -2, OffFrom: from, OffTo: from + 114*6, OffStep: 1}) {
 									return
 								}
+								if !yield(c14Case{Source: src, LYC: y, Frames: 2, OffAt: -2, OffFrom: from, OffTo: from + 114*6, OffStep: 1, Write: -1}) {
+									return
+								}
 							}
 							continue
 						}
 						for _, line := range []int{0, 1, 143, 144, 153} {
 							from := 17556 + line*114
 							if !yield(c14Case{Source: src, LYC: y, Frames: 2, OffAt: -2, OffFrom: from, OffTo: from + 114, OffStep: 1}) {
+								return
+							}
+							// one unrelated register write at every cycle of the line
+							if !yield(c14Case{Source: src, LYC: y, Frames: 2, OffAt: -2, OffFrom: from, OffTo: from + 114, OffStep: 1, Write: -1}) {
 								return
 							}
 						}
